@@ -61,15 +61,16 @@ impl<C: Cursor> Cursor for ConcatenatingCursor<C> {
                 self.cursors[self.position].seek_to_last()?;
                 self.cursors[self.position].prev()?;
             }
-            if mid == left {
-                break;
-            }
-            // SAFETY(rescrv):  We have a loop invariant above that goes until is_some or the
-            // conditional right above us.
-            if self.cursors[self.position].key().unwrap() >= kref {
-                right = mid;
-            } else {
-                left = mid + 1;
+            // The inner loop stops at the first non-empty cursor at or below the midpoint, or at
+            // `left` when every cursor in left..=midpoint is empty.  Compare in both cases, so
+            // that a key held by cursor `left` itself is found.
+            match self.cursors[self.position].key() {
+                Some(last) if last >= kref => {
+                    right = mid;
+                }
+                _ => {
+                    left = mid + 1;
+                }
             }
         }
         self.reposition(left)?;
